@@ -240,6 +240,33 @@ def rule_tables(prog):
         out.add("TokenType::look_ahead", "T2 look_ahead(Unknown) >= 1", ok, c.loc(t["la_body"]["sp"]),
                 "%s alone is lexed as Unknown but opens a character literal: text typed behind it turns it into a Char token, so it must be "
                 "re-lexed when the change starts at its end (look_ahead is %s)" % (sorted(openers), la.get("Unknown")), ("T2", "lexer"))
+    # T2 (use): the incremental lexer decides "does this change touch that token" with the table's value.  A function between the
+    # table and that decision which answers with a number of its own for some tokens (a wrapper with literal arms) takes tokens out of
+    # the table again
+    la_path = t["la_body"]["p"]
+    for fb in c.bodies:
+        if "/tests" in c.file_of(fb["sp"]) or fb["p"] == la_path or fb["k"] == "closure":
+            continue
+        uses = [x for x in hir.nodes(fb["body"]) if x.get("k") in ("MethodCall", "Call") and (hir.callee(x) or "") == la_path]
+        if not uses:
+            continue
+        sig_out = c.tstr(fb.get("sig_out", 0) or 0) if "sig_out" in fb else ""
+        if sig_out == "bool":
+            continue
+        own = []
+        for m_ in hir.nodes(fb["body"], "Match"):
+            for a_ in m_["arms"]:
+                if hir.strip(a_["body"]).get("k") == "Lit":
+                    own.append(a_)
+        for i_ in hir.nodes(fb["body"], "If"):
+            for br in (i_.get("then"), i_.get("else")):
+                br_ = hir.strip(br or {})
+                tail_ = br_["b"].get("expr") if br_.get("k") == "BlockExpr" else None
+                if tail_ is not None and hir.strip(tail_).get("k") == "Lit":
+                    own.append(i_)
+        out.add(fb["d"], "T2 the look-ahead that is used is the table's value, for every token", not own, c.loc((own[0] if own else fb)["sp"]),
+                "`%s` hands out the table's look-ahead but answers with a literal of its own on some path: whatever the table says for those "
+                "tokens (a comment that ends with the text grows when text is appended) is overridden" % fb["d"], ("T2", "lexer"))
     # T3: every static token occurs exactly once, with the right macro; class order
     for v, s in sorted(static.items()):
         if v == "Eof":
